@@ -278,34 +278,35 @@ def build_bases(repo):
         txs[p] = (ttx, tin)
 
     # ---------------------------------------------------------------- btcc
-    def cc(bid, toks, klass, pair=False, vt=None):
-        B.append(Base("btcc/" + bid, "btcc", [Slot(t, (vt or {}).get(i, "tok")) for i, t in enumerate(toks)], klass, pair=pair))
+    def cc(bid, toks, klass, pair=False, vt=None, meta=None):
+        B.append(Base("btcc/" + bid, "btcc", [Slot(t, (vt or {}).get(i, "tok"), meta=(meta or {}).get(i)) for i, t in enumerate(toks)],
+                      klass, pair=pair))
 
     cc("opcode1", ["OP_1"], "opcode", pair=True)
     cc("opcodes", ["OP_DUP", "OP_HASH160", "OP_EQUALVERIFY", "OP_CHECKSIG"], "opcode")
-    cc("decimal1", ["17"], "decimal", pair=True, vt={0: "num"})
+    cc("decimal1", ["17"], "decimal", vt={0: "num"})
     cc("decimals", ["1", "16", "-1", "1000", "2147483647"], "decimal", vt={i: "num" for i in range(5)})
     cc("hex20", [H20], "hex", vt={0: "hex"})
     cc("hex1", ["ab"], "hex", pair=True, vt={0: "hex"})
     cc("0x", ["0x01", "0x0102030405"], "0x", pair=True, vt={0: "hex", 1: "hex"})
-    cc("0xempty", ["0x"], "0x", pair=True, vt={0: "hex"})
+    cc("0xempty", ["0x"], "0x", vt={0: "hex"})
     cc("bracket1", ["[OP_1]"], "bracket", pair=True)
     cc("bracket-nest", ["[OP_1 [OP_2 [OP_3 [4]]]]"], "bracket")
     cc("bracket-split", ["[OP_1", "OP_2]"], "bracket", pair=True)
     cc("p2pkh", ["OP_DUP", "OP_HASH160", "[" + H20 + "]", "OP_EQUALVERIFY", "OP_CHECKSIG"], "mixed")
-    cc("string", ["hello"], "string", pair=True)
+    cc("string", ["hello"], "string")
     cc("comment", ["[OP_1 # comment\nOP_2]"], "bracket")
     rows = {r[0]: r for r in TF_TABLE}
     for (inl, tfname) in INLINE_FNS:
         args = rows[tfname][2]
         arg = args[0] if len(args) == 1 else "[" + " ".join(args) + "]"
-        cc("fn-" + inl, ["%s(%s)" % (inl, arg)], "inline-fn", pair=(inl in ("int", "hex")), vt={0: "fn"})
+        cc("fn-" + inl, ["%s(%s)" % (inl, arg)], "inline-fn", pair=(inl in ("int", "hex")), vt={0: "fn"}, meta={0: {"fn": inl, "args": args}})
     # the tf-table "inline" names that do_exec does not know (b32d, b58ce, jacobi_sym, ...): unknown-function path
     known = set(i for i, _ in INLINE_FNS)
     for (name, inl, args) in TF_TABLE:
         if inl not in known:
             arg = args[0] if len(args) == 1 else "[" + " ".join(args) + "]"
-            cc("fn-" + inl, ["%s(%s)" % (inl, arg)], "inline-fn-unknown", vt={0: "fn"})
+            cc("fn-" + inl, ["%s(%s)" % (inl, arg)], "inline-fn-unknown", vt={0: "fn"}, meta={0: {"fn": inl, "args": args}})
     cc("fn-nested", ["hex(sha256(reverse(0x0102)))"], "inline-fn", vt={0: "fn"})
 
     # ---------------------------------------------------------------- btcdeb batch (script line on stdin)
@@ -325,8 +326,7 @@ def build_bases(repo):
     deb("ifelse", "[OP_1 OP_IF OP_2 OP_ELSE OP_3 OP_ENDIF]", [], [], "script-if")
     deb("p2pkh-stack", "[OP_DUP OP_HASH160 0x%s OP_EQUALVERIFY OP_CHECKSIG]" % H20, [], [DERSIG, G_PUB], "script+hexstack",
         stackvt="hex")
-    deb("flags-long", "[OP_1 OP_IF OP_2 OP_ENDIF]", [O("--modify-flags=", "-NULLDUMMY,+P2SH", "flags")], [], "flags",
-        pair=True)
+    deb("flags-long", "[OP_1 OP_IF OP_2 OP_ENDIF]", [O("--modify-flags=", "-NULLDUMMY,+P2SH", "flags")], [], "flags")
     deb("flags-short", "[OP_0 OP_0 OP_1 OP_CHECKMULTISIG]", [O("-f", "-MINIMALIF,-NULLFAIL", "flags")], [], "flags")
     deb("sign-tx", SIGN_SCRIPT, [O("--tx=", SIGN_AMT + ":" + SIGN_TX, "txamt")], ["0x", SIGN_S2, SIGN_S3], "tx+script+stack",
         stackvt="hex")
@@ -372,7 +372,7 @@ def build_bases(repo):
         B.append(Base("btcdeb-argv/" + bid, "btcdeb", slots, klass, mode="argv", env={"DEBUG_SET_PIPE_OUT": "1"}, pair=pair,
                       opts=BTCDEB_OPTS))
 
-    debargv("script", [], "[OP_1 OP_2 OP_ADD]", [], "argv script", pair=True)
+    debargv("script", [], "[OP_1 OP_2 OP_ADD]", [], "argv script")
     debargv("script+stack", [], "[OP_ADD]", ["1", "2"], "argv script+stack")
     debargv("none", [], None, [], "argv empty", pair=True)
     debargv("auto-p2sh-p2wpkh", [O("--tx=", txs["p2sh-p2wpkh"][0], "tx"), O("--txin=", txs["p2sh-p2wpkh"][1], "txin", partner=0)],
@@ -392,7 +392,7 @@ def build_bases(repo):
     tap("n1", [], G_X, 1, ["[OP_1]"], [], "tap n=1", pair=True)
     tap("n2", [], TAP_PUB, 2, [TAP_ALICE, TAP_BOB], [], "tap n=2")
     tap("n3", [], G_X, 3, ["[OP_1]", "[OP_2]", "[OP_3]"], [], "tap n=3")
-    tap("n1-spend", [], G_X, 1, ["[OP_1]"], ["0"], "tap spend", pair=True)
+    tap("n1-spend", [], G_X, 1, ["[OP_1]"], ["0"], "tap spend")
     tap("n2-spend-arg", [], TAP_PUB, 2, [TAP_ALICE, TAP_BOB], ["1", TAP_PREIMAGE], "tap spend")
     tap("n3-spend-sig", [], G_X, 3, ["[OP_1]", "[OP_2]", "[OP_3]"], ["2", "%SIG%", "0x01"], "tap spend")
     tap("n2-tx", [O("--tx=", TAP_TX, "tx"), O("--txin=", TAP_TXIN, "txin", partner=0)], TAP_PUB, 2, [TAP_ALICE, TAP_BOB], [],
@@ -418,7 +418,7 @@ def build_bases(repo):
 def big_strings():
     return [("digits", "7" * BIG), ("hex", "ab" * (BIG // 2)), ("A", "A" * BIG), ("open-bracket", "[" * BIG),
             ("open-paren", "(" * BIG), ("nested-brackets", "[" * (BIG // 2) + "]" * (BIG // 2)),
-            ("nested-calls", "hex(" * 2000 + "00" + ")" * 2000)]
+            ("nested-calls", "sha256(" * 1250 + "00" + ")" * 1250)]
 
 
 INDEX_VALUES = ["-1", "<n>", "<n+1>", "2147483648", "4294967296", "", "x"]
@@ -590,10 +590,31 @@ def slot_deviations(base, i, tier):
         rep("big-stack-item", "75 bytes", "0x" + "5a" * 75)
         rep("big-stack-item", "76 bytes", "0x" + "5a" * 76)
         rep("big-stack-item", "256 bytes", "0x" + "5a" * 256)
+    if vt == "fn" and "fn" in s.meta:
+        fn, args = s.meta["fn"], s.meta["args"]
+
+        def call(a):
+            return "%s(%s)" % (fn, a[0] if len(a) == 1 else "[" + " ".join(a) + "]")
+        inner = [(n, v) for (n, v) in adversarial_args() if " " not in v] + [("num " + v, v) for v in NUM_VALUES] + [
+            ("520 bytes", "0x" + "5a" * 520), ("521 bytes", "0x" + "5a" * 521), ("OP_1", "OP_1"), ("string", "hello")]
+        for pos in range(len(args)):
+            for (an, av) in inner:
+                a = list(args)
+                a[pos] = av
+                if a != args:
+                    rep("fn-argument", "%s arg%d=%s" % (fn, pos, an), call(a))
+        if len(args) > 1:
+            rep("fn-argument", "%s one arg missing" % fn, call(args[:-1]))
+            for (an, av) in inner[:12]:
+                rep("fn-argument", "%s whole arg=%s" % (fn, an), "%s(%s)" % (fn, av))
+        rep("fn-argument", "%s one arg added" % fn, call(list(args) + [args[-1]]))
+        rep("fn-argument", "%s no arg" % fn, "%s()" % fn)
+        rep("fn-argument", "%s nested in itself" % fn, "%s(%s)" % (fn, val))
     if vt == "script":
         # script-level structure: lone conditionals, truncated push, invalid opcode byte
         for sv in ("[OP_IF]", "[OP_ENDIF]", "[OP_ELSE]", "[OP_1 OP_IF]", "0x4c", "0x4d01", "0x4effffffff", "0x05ab", "0xff", "0xba",
-                   "[OP_CODESEPARATOR]", "[OP_RETURN]", "[OP_CHECKSIG]", "[OP_0 OP_CHECKMULTISIG]", "[OP_1NEGATE OP_PICK]"):
+                   "[OP_CODESEPARATOR]", "[OP_RETURN]", "[OP_CHECKSIG]", "[OP_0 OP_CHECKMULTISIG]", "[OP_1NEGATE OP_PICK]",
+                   "int(0x0102030405)", "[int(0x0102030405)]", "[bech32dec(a12uel5l)]", "[addr_to_spk(x)]", "[nosuchfn(1)]"):
             if sv != val:
                 rep("script-structure", sv, sv)
     if vt == "index":
@@ -767,7 +788,7 @@ def tf_commands():
 def sessions(txs):
     """the 6 interactive sessions: (id, argv)"""
     S = [
-        ("plain-z", ["-z", "[OP_1 OP_ADD OP_8 OP_EQUAL]", "7"]),
+        ("plain-z", ["-z", "[OP_ADD OP_8 OP_EQUAL]", "7", "1"]),
         ("ifelse", ["[OP_1 OP_IF OP_2 OP_ELSE OP_3 OP_ENDIF OP_TOALTSTACK]"]),
         ("p2pkh", ["--tx=" + txs["p2pkh"][0], "--txin=" + txs["p2pkh"][1]]),
         ("p2sh-multisig", ["--tx=" + txs["p2sh-multisig-2-of-2"][0], "--txin=" + txs["p2sh-multisig-2-of-2"][1]]),
